@@ -6,12 +6,16 @@
 
 namespace xs {
 
+struct Result;
 struct Family {
     const char *name;
     void (*gen)(uint64_t seed, const std::string &prop, Plan &plan);
     void (*setup)(const Plan &plan);                 // configure kernel/FS, spawn tasks
     void (*finalize)(const Plan &plan, EndReason r); // end-of-run oracles (before unwinding)
     void (*after_unwind)(const Plan &plan);          // optional: after all tasks have ended
+    // optional: fault enumeration. Given the base plan and the result of its fault-free reference
+    // execution (with the record of every fallible lower call), produce the variant plans.
+    void (*variants)(const Plan &base, const struct Result &ref, std::vector<Plan> &out, size_t cap);
 };
 void register_family(const Family &f);
 const Family *find_family(const std::string &name);
@@ -26,6 +30,7 @@ struct Result {
     bool nontrivial = false;
     std::map<std::string, int64_t> stat;
     std::vector<std::string> notes;
+    std::vector<KCallRec> calls;   // reference executions only (plan knob record_calls)
     Json to_json() const;
 };
 
